@@ -12,7 +12,8 @@ THEOREMS = ["Econf.C04_read_total", "Econf.C04_line_total", "Econf.C04_split_los
             "Leaf.stripbrackets_exec", "Leaf.C_trim", "Leaf.C_toLowerCase", "Leaf.C_stripbrackets", "Leaf.C_ltrim",
             "Leaf.check_delim_exec", "Leaf.hashstring_exec",
             "Leaf.addbrackets_exec", "Leaf.replace_str_exec", "Leaf.C_replace_str", "Leaf.replaceSpec_length",
-            "LeafKf.first_entry_exec", "LeafKf.has_group_exec", "LeafKf.first_definition_exec"]
+            "LeafKf.first_entry_exec", "LeafKf.has_group_exec", "LeafKf.first_definition_exec",
+            "LeafKf.find_key_exec", "LeafKf.getFromGroupList_exec"]
 # the string helpers whose C source is translated to MiniC on every run (memory safety for every input is a theorem about the translation)
 LEAF_FNS = ["stripbrackets", "addbrackets", "toLowerCase", "hashstring", "ltrim", "rtrim", "trim", "check_delim", "replace_str",
             "has_group", "first_entry", "first_definition", "getFromGroupList", "find_key"]
@@ -79,8 +80,9 @@ def mutate(rng, doc):
     return bytes(b)
 
 
-def long_line(rng, n):
-    kind = rng.randrange(6)
+def long_line(rng, n, kind=None):
+    if kind is None:
+        kind = rng.randrange(6)
     body = lambda k, c=0x61: ("r%d:%02x" % (k, c))
     if kind == 0:   # long value
         return h(b"k=") + "+" + body(n) + "+" + h(b"\nz=1\n")
@@ -141,12 +143,14 @@ def scenarios(tier, rng):
         out.append(scenario("n%db" % i, many(rng, left, 1, gl), many(rng, c - left, 1, 0, b"t"), d, cm, o, "many"))
         out.append(scenario("n%dc" % i, many(rng, 1, c, gl), many(rng, 1, rng.choice([1, c]), 1), d, cm, o, "many"))
     # (3) long lines
+    #     every kind of long field at every length with the conventional characters, and once more with random ones
     for i, nlen in enumerate([8189, 8190, 8191, 8192, 8193, 8194, 16384, 65536] * (1 if tier == "quick" else 4)):
-        d, c, o = rng.choice(cfgs)
-        s = scenario("l%d" % i, b"", b"k=1\n", d, c, o, "long")
-        s.lines[0] = "F %s %s" % (s.lines[0].split(" ")[1], long_line(rng, nlen))
-        s.meta["a"] = ("long", nlen, s.lines[0])
-        out.append(s)
+        for kind in range(7):
+            d, c, o = (b"=", b"#", rng.choice(gen_parse.OPTIONS)) if kind < 6 else rng.choice(cfgs)
+            s = scenario("l%d_%d" % (i, kind), b"", b"k=1\n", d, c, o, "long")
+            s.lines[0] = "F %s %s" % (s.lines[0].split(" ")[1], long_line(rng, nlen, kind if kind < 6 else None))
+            s.meta["a"] = ("long", nlen, s.lines[0])
+            out.append(s)
     return out
 
 
